@@ -1,7 +1,7 @@
 """libc stubs (precise models; symbolic characters are supported where the C semantics can be expressed as a term
 without forking, otherwise the stub asks the solver which single behaviour is feasible and reports Unsupported if several)."""
 import z3
-from irsym import is_sym, bv, simp, mask, sext, Unsupported, Violation
+from irsym import is_sym, bv, simp, mask, sext, Unsupported, Violation, NeedFork
 
 def _definitely(E, st, cond):
     """cond holds on every input of this path"""
@@ -16,7 +16,7 @@ def cchars(E, st, p, limit=1 << 16):
             if b == 0: return out
         else:
             if E.feasible(st, b == 0):
-                if E.feasible(st, b != 0): raise Unsupported('C string whose length depends on a symbolic character')
+                if E.feasible(st, b != 0): raise NeedFork(b == 0)
                 return out
         out.append(b)
     raise Unsupported('unterminated C string')
@@ -28,7 +28,7 @@ def install(E):
         d = z3.And(z3.UGE(b, 48), z3.ULE(b, 57))
         if _definitely(E, st, d): return True
         if _definitely(E, st, z3.Not(d)): return False
-        raise Unsupported('character may or may not be a digit (constrain the token shape)')
+        raise NeedFork(d)
     def atoll_bits(bits):
         def f(E, st, fr, I, A):
             p = A[0]; i = 0; neg = False
@@ -36,7 +36,9 @@ def install(E):
             while not is_sym(b) and b in (32, 9, 10, 13, 11, 12): i += 1; b = E.load(st, p + i, 1)
             if is_sym(b):
                 sgn = z3.Or(b == 43, b == 45)
-                if not _definitely(E, st, z3.Not(sgn)): raise Unsupported('first character may be a sign')
+                if not _definitely(E, st, z3.Not(sgn)):
+                    if _definitely(E, st, sgn): raise Unsupported('symbolic sign character')
+                    raise NeedFork(sgn)
             elif b in (43, 45): neg = b == 45; i += 1
             val = 0
             while True:
@@ -62,12 +64,12 @@ def install(E):
         neg = v < 0
         if _definitely(E, st, neg): sign = [45]; mag = simp(-v)
         elif _definitely(E, st, z3.Not(neg)): sign = []; mag = v
-        else: raise Unsupported('formatted number may be negative or not')
+        else: raise NeedFork(neg)
         for nd in range(1, 21):
             lo = 10 ** (nd - 1) if nd > 1 else 0; hi = 10 ** nd
             c = z3.And(z3.UGE(mag, lo), z3.ULT(mag, hi)) if hi < (1 << bits) else z3.UGE(mag, lo)
             if E.feasible(st, c):
-                if not _definitely(E, st, c): raise Unsupported('formatted number has a symbolic number of digits')
+                if not _definitely(E, st, c): raise NeedFork(c)
                 return sign + [simp(z3.Extract(7, 0, z3.URem(z3.UDiv(mag, 10 ** (nd - 1 - k)), 10)) + 48) for k in range(nd)]
         raise Unsupported('fmt_decimal')
     def snprintf(E, st, fr, I, A):
